@@ -437,7 +437,10 @@ class Stream(object):
 
         Coroutine.
         '''
-        if self._connection.closed():
+        # Data received before the request is written is surplus of an
+        # earlier response. It must not be read as the next response.
+        if self._connection.closed() or \
+                self._connection.has_buffered_data():
             self._connection.reset()
 
             yield from self._connection.connect()
